@@ -161,3 +161,24 @@ def bounded_sweep(contract, rid, quick=300, thorough=5000, cfg="-"):
                 "samples": out["samples"],
                 "failures": out["failures"]}
     return run
+
+
+def reused_set_name():
+    """name of the module-level set of psutil/__init__.py into which Process.is_running() puts a PID it found recycled
+    (`<name>.add(self.pid)`): found by role, so a rename of that private global does not detach the contracts from it"""
+    import ast as _ast
+    import os as _os
+    try:
+        tree = _ast.parse(open(_os.path.join(_os.environ.get("VERIF_REPO", "/repo"), INIT)).read())
+        for cls in tree.body:
+            if isinstance(cls, _ast.ClassDef) and cls.name == "Process":
+                for fn in cls.body:
+                    if isinstance(fn, _ast.FunctionDef) and fn.name == "is_running":
+                        for c in _ast.walk(fn):
+                            if isinstance(c, _ast.Call) and isinstance(c.func, _ast.Attribute) and c.func.attr == "add" \
+                                    and isinstance(c.func.value, _ast.Name) and len(c.args) == 1 \
+                                    and _ast.unparse(c.args[0]) == "self.pid":
+                                return c.func.value.id
+    except Exception:
+        pass
+    return "_pids_reused"
